@@ -205,7 +205,7 @@ class Workload:
             "seed_parts": [SEED, PROP, "sched", i],
             "horizon": max(2000, est // 12),
             "cap": 50 * est,
-            "wall": 240.0,
+            "wall": 600.0,
         }
 
     def history_task(self, i: int, tier: str) -> dict:
@@ -484,14 +484,30 @@ def check(tier: str) -> int:
     stats = {
         "sched_runs": 0, "hist_runs": 0, "steps": 0, "switches": 0, "overlap_switches": 0,
         "aborts": {}, "abort_results": {}, "cancels": 0, "recursion_faults": {}, "mutations": 0,
-        "policies": {}, "granularity": {}, "ops_judged": 0, "ops_total": 0, "harness_timeouts": 0,
+        "policies": {}, "granularity": {}, "ops_judged": 0, "ops_total": 0, "harness_timeouts": 0, "retried_after_timeout": 0,
     }
     sched_sigs, sched_sigs_nontrivial, hist_sigs, hist_sigs_nontrivial = set(), set(), set(), set()
     fn_pairs = set()
     samples = []
     examples: dict[str, tuple[dict, dict, dict]] = {}  # key -> (task, res, violation)
     tr = time.monotonic()
-    for idx, (status, res) in kernel.run_tasks(_run_one, tasks, wall_timeout=400.0):
+
+    def results():
+        """All runs; a run that fell to the wall-clock safety net (a loaded machine makes 300 000 thread hand-overs
+        slow) is repeated once, alone, with a longer guard — a time-out is never a pass, but it is not evidence either."""
+        again = []
+        for idx, (status, res) in kernel.run_tasks(_run_one, tasks, wall_timeout=800.0):
+            if status == "harness-timeout" or (status == "ok" and not res.get("finished") and not res.get("errors")):
+                again.append(idx)
+                continue
+            yield idx, (status, res)
+        for idx in again:
+            stats["retried_after_timeout"] += 1
+            t2 = copy.deepcopy(tasks[idx])
+            t2["wall"] = 2400.0
+            yield idx, kernel.run_in_child(_run_one, t2, 2500.0)
+
+    for idx, (status, res) in results():
         task = tasks[idx]
         if status != "ok":
             stats["harness_timeouts"] += 1
@@ -645,6 +661,7 @@ def check(tier: str) -> int:
         "violation_classes": sorted(report.violations),
         "known_finding_classes": sorted(report.known_hits),
         "harness_problems": len(report.harness_problems),
+        "runs_repeated_after_a_wall_clock_timeout": stats["retried_after_timeout"],
         "components": {
             "real": ["peg_parser.tokenize", "peg_parser.tokenizer", "peg_parser.subheader", "peg_parser.parser",
                      "CPython threads (baton-passing, one runnable)", "CPython io / real scratch files"],
